@@ -239,7 +239,7 @@ func c10ConfChange(c *Check) {
 				for top.Parent() != nil {
 					top = top.Parent()
 				}
-				ok := top == applyCC || top == ccRestore
+				ok := calledOnlyFrom(p, top, map[*ssa.Function]bool{applyCC: true, ccRestore: true}, 0)
 				c.Result(ok, "C10.A", "caller of Changer."+name, fnName(cs.Caller), p.site(cs.Instr), "configurations change only through applyConfChange or confchange.Restore", "")
 			}
 		}
@@ -494,4 +494,29 @@ func c10AutoLeave(c *Check) {
 		}
 		c.Result(n == 1, "C10.L", "auto-leave edge exists", fnName(rAppliedTo), p.Pos(rAppliedTo.Pos()), "raft.appliedTo proposes the leave-joint change", fmt.Sprint(n))
 	}
+}
+
+// calledOnlyFrom: fn is one of the allowed functions, or a helper all of whose call sites sit
+// (through at most three levels of helpers) in allowed functions.
+func calledOnlyFrom(p *Prog, fn *ssa.Function, allowed map[*ssa.Function]bool, depth int) bool {
+	if allowed[fn] {
+		return true
+	}
+	if depth >= 3 || fn.Object() != nil && fn.Object().Exported() {
+		return false
+	}
+	sites := p.CallsTo(fn)
+	if len(sites) == 0 {
+		return false
+	}
+	for _, cs := range sites {
+		top := cs.Caller
+		for top.Parent() != nil {
+			top = top.Parent()
+		}
+		if !calledOnlyFrom(p, top, allowed, depth+1) {
+			return false
+		}
+	}
+	return true
 }
